@@ -91,6 +91,10 @@ def reqItems (r : List Step × Result × Env) : List MItem :=
 def modelItems (hooks : List Hook) (nTasks : Nat) (reqs : List Req) : List MItem :=
   ((runSeq hooks nTasks {} reqs).map reqItems).flatten
 
+/-- The same for request lists with overlapping pairs. -/
+def modelItemsPar (hooks : List Hook) (nTasks : Nat) (reqs : List PReq) : List MItem :=
+  ((runPar hooks nTasks {} reqs).map reqItems).flatten
+
 /-! ### timestamp canonicalisation -/
 
 def TV.ts : TV → List Nat
@@ -191,8 +195,7 @@ def fixedCalls (cs : List CallInfo) : List CallInfo :=
   (cs.filter (fun c => !c.floating)).foldl (fun acc c => insertXe c acc) []
 
 /-- First reason why the observed trace is not one the model allows; `none` = accepted. -/
-def monitor (hooks : List Hook) (nTasks : Nat) (reqs : List Req) (tr : ITrace) : Option String :=
-  let items := modelItems hooks nTasks reqs
+def monitorItems (items : List MItem) (tr : ITrace) : Option String :=
   let calls := collectCalls items 0 0 []
   match collectObs tr 0 0 [] [] with
   | none => some "unbalanced probe entry/exit records"
@@ -233,5 +236,11 @@ def monitor (hooks : List Hook) (nTasks : Nat) (reqs : List Req) (tr : ITrace) :
         match badOrder with
         | some a => some s!"call {a.inst.hook}#{a.inst.k} was awaited before a later call started, yet finished after that call began"
         | none => none
+
+def monitor (hooks : List Hook) (nTasks : Nat) (reqs : List Req) (tr : ITrace) : Option String :=
+  monitorItems (modelItems hooks nTasks reqs) tr
+
+def monitorPar (hooks : List Hook) (nTasks : Nat) (reqs : List PReq) (tr : ITrace) : Option String :=
+  monitorItems (modelItemsPar hooks nTasks reqs) tr
 
 end EnvM
